@@ -1,15 +1,7 @@
-import Prom.Model.Timer
-/-
-C18 — A timer records its duration exactly once, or never when discarded.
--/
+import Prom.Lemmas.C18Aux
+
 namespace Prom.C18
 open Prom
-
-/-- live timers never hold buffered observations and have not observed yet; ended timers hold none -/
-def TimerOk (t : Timer) : Prop := t.buf = 0 ∧ (t.alive = true → t.observed = false)
-
-def TInv (w : TW) : Prop := w.shared + w.parent = w.ended + w.closures + w.direct ∧ ∀ t ∈ w.timers, TimerOk t
-
 theorem record_contributes_one (t : Timer) (h : TimerOk t) (ha : t.alive = true) :
     let (t1, d1) := t.observe true
     let (t2, d2) := t1.dropIt
@@ -30,13 +22,6 @@ theorem drop_contributes_one (t : Timer) (h : TimerOk t) (ha : t.alive = true) :
   obtain ⟨hb, ho⟩ := h
   have hobs := ho ha
   cases hk : t.kind <;> simp [Timer.observe, Timer.dropIt, hk, hb, hobs, TimerOk]
-
-theorem set_ok {l : List Timer} {i : Nat} {t' : Timer} (h : ∀ t ∈ l, TimerOk t) (ht : TimerOk t') :
-    ∀ t ∈ l.set i t', TimerOk t := by
-  intro t hm
-  rcases List.mem_or_eq_of_mem_set hm with h' | h'
-  · exact h t h'
-  · rw [h']; exact ht
 
 theorem step_inv (w : TW) (op : TOp) (h : TInv w) : TInv (w.step op) := by
   obtain ⟨hs, ht⟩ := h
@@ -104,14 +89,6 @@ theorem timer_contribution (ops : List TOp) :
 theorem ended_timer_inert (w : TW) (i : Nat) (t : Timer) (hl : w.timers[i]? = some t) (ha : t.alive = false) :
     w.step (.record i) = w ∧ w.step (.discard i) = w ∧ w.step (.drop i) = w := by
   simp [TW.step, TW.withTimer, hl, ha]
-
-/-- the parent local histogram is never touched by its timers (they record into a private clone) -/
-theorem withTimer_parent (w : TW) (i : Nat) (f : Timer → Timer × Nat) (e : Bool) :
-    (w.withTimer i f e).parent = w.parent := by
-  unfold TW.withTimer
-  cases w.timers[i]? with
-  | none => rfl
-  | some t => simp only []; split <;> rfl
 
 theorem parent_untouched (w : TW) (op : TOp) (h1 : op ≠ .pobs) (h2 : op ≠ .pflush) : (w.step op).parent = w.parent := by
   cases op with
